@@ -29,12 +29,15 @@ LamOK(e) == IF "E" \in DOMAIN e THEN Close(Mul(Sq(e.lam), e.E), KE, -13) ELSE TR
 \* an atom is served as "no data" only if the raw tables have none for it (raw is computed by the harness from the text of
 \* nsf.nsftable and density.element_densities, not by the library)
 RawOK(ps) == \A i \in DOMAIN ps : ("raw" \in DOMAIN ps[i] /\ ps[i].raw) => ps[i].kind # "nodata"
+\* an atom with an energy-dependent table in the raw data is served with that table, on every table
+RawEOK(ps) == \A i \in DOMAIN ps : ("rawE" \in DOMAIN ps[i] /\ ps[i].rawE /\ ps[i].kind # "nodata") => ps[i].kind = "table"
 RECURSIVE SumMnat(_)
 SumMnat(ps) == IF ps = <<>> THEN Zero ELSE Add(MulP(Head(ps).n, Head(ps).mnat, P12), SumMnat(Tail(ps)))
 \* density of the call: density=, or natural_density= converted by the ratio of actual to natural-abundance mass
 Rho(e) == IF "nd" \in DOMAIN e /\ ~IsZero(SumMnat(e.ps)) THEN Div(MulP(e.nd, SumM(e.ps), P12), SumMnat(e.ps), P12) ELSE e.rho
 ScatClause(ps, rho, lam, o) ==
   IF ~RawOK(ps) THEN "TabulatedAtomServedAsMissing"
+  ELSE IF ~RawEOK(ps) THEN "EnergyDependentAtomServedAsConstant"
   ELSE IF ~HasData(ps) THEN (IF IsNoneOut(o) THEN "ok" ELSE "MissingDataGivesNone")
   ELSE IF IsNoneOut(o) THEN "DataGivesResult"
   ELSE IF IsZero(rho) \/ IsZero(SumM(ps)) THEN (IF IsVacuum(o) /\ o.pen.k = "inf" THEN "ok" ELSE "Vacuum")
